@@ -710,7 +710,9 @@ class NDNApp:
         def decorator(func: IntHandler):
             # A declaration that is refused (the prefix is taken) must not leave a second registration behind
             self.attach_handler(name, func, validator)
-            self._autoreg_routes.append(name)
+            # ... nor does a route declared again after its handler was detached
+            if name not in self._autoreg_routes:
+                self._autoreg_routes.append(name)
             if self.face.running:
                 aio.create_task(self.register(name))
             return func
